@@ -1,8 +1,9 @@
 (* Extraction of the executable model to OCaml. ExtrOcamlBasic only: bool, option, list, prod,
-   unit, sumbool map to OCaml's own types; positive / N / Z / nat stay inductive. *)
+   unit, sumbool map to OCaml's own types; positive / N / Z / nat / string stay inductive. *)
 From Coq Require Import Extraction ExtrOcamlBasic.
-From Coq Require Import List NArith ZArith.
-From DV Require Import Outcome Bits Escape BitIO Av1.
+From Coq Require Import List NArith ZArith String.
+From DV Require Import Outcome Bits Escape BitIO Av1 Crc32 Fields Blocks Rpu.
+From DVgen Require Import Blocks_gen DmData_gen Switches_gen.
 
 Extraction Language OCaml.
 Set Extraction Optimize.
@@ -11,4 +12,8 @@ Extraction "../driver/model.ml"
   Escape.escape Escape.unescape Escape.no_start_code_emulation
   Av1.convert_regular_rpu_to_av1_payload Av1.convert_av1_rpu_payload_to_regular
   Av1.av1_validated_trimmed_data
+  Crc32.crc32
+  Rpu.parse_rpu Rpu.parse_unspec62_nalu Rpu.parse_av1 Rpu.src_sw
+  Rpu.write_rpu Rpu.write_hevc_unspec62_nalu Rpu.write_av1_payload Rpu.write_av1_complete
+  Rpu.dm_main_prog Blocks.desc_of Fields.present
   N.add N.mul N.div N.modulo N.of_nat N.to_nat Z.of_N Z.to_N Z.opp N.eqb.
